@@ -67,7 +67,8 @@ static rc::Gen<Op> gen_op_from(const std::map<int, double> &w, int nmods, const 
         case P::O_QUIT: ga = gens::weighted_values<long>({{2, 0}, {2, 7}, {1, 42}, {1, 255}, {1, 4}, {1, 11}}); break;
         case P::O_DISPATCH: ga = gens::weighted_values<long>({{5, 1}, {3, 2}, {2, 4}, {1, 12}}); if (prop == "C03") gb = gens::weighted_values<long>({{14, 0}, {3, 1}, {1, 2}, {1, 3}, {1, 4}}); else if (prop == "C04" || prop == "C02" || prop == "C08") gb = gens::weighted_values<long>({{30, 0}, {1, 1}, {1, 3}}); break;
         case P::O_SET_TICK: ga = gens::weighted_values<long>({{1, 0}, {2, 2}, {2, 5}, {1, 10}}); break;
-        case P::O_REG: ga = prop == "C15" ? gens::weighted_values<long>({{3, 0}, {3, 1}, {2, 2}, {1, 3}, {3, 8}, {3, 16}, {3, 32}, {1, 4}, {1, 64}, {1, 9}, {1, 56}}) : gens::weighted_values<long>({{12, 0}, {2, 1}, {1, 2}, {1, 4}, {1, 64}, {1, 8}, {1, 16}, {1, 32}, {1, 68}}); gb = gens::weighted_values<long>({{2, 0}, {1, 1}}); break;
+        case P::O_REG: if (prop == "C04") { ga = gens::weighted_values<long>({{8, 0}, {2, 1}, {1, 2}, {1, 4}, {5, 64}, {1, 8}, {1, 16}, {1, 32}, {2, 68}, {1, 65}}); gb = gens::weighted_values<long>({{1, 0}, {1, 1}}); break; }
+            ga = prop == "C15" ? gens::weighted_values<long>({{3, 0}, {3, 1}, {2, 2}, {1, 3}, {3, 8}, {3, 16}, {3, 32}, {1, 4}, {1, 64}, {1, 9}, {1, 56}}) : gens::weighted_values<long>({{12, 0}, {2, 1}, {1, 2}, {1, 4}, {1, 64}, {1, 8}, {1, 16}, {1, 32}, {1, 68}}); gb = gens::weighted_values<long>({{2, 0}, {1, 1}}); break;
         case P::O_SUB: ga = prop == "C19" ? gens::weighted_values<long>({{1, 0}, {1, 4}, {3, 8}, {3, 9}, {2, 10}, {2, 11}, {1, 12}, {2, 13}, {2, 14}}) : gens::weighted_values<long>({{4, 0}, {3, 1}, {2, 2}, {2, 3}, {3, 4}, {2, 5}, {2, 6}, {1, 7}, {1, 8}, {1, 9}, {1, 10}, {1, 11}, {1, 13}, {1, 14}, {1, 15}});
             gb = prop == "C13" ? gens::weighted_values<long>({{3, 0}, {4, 1}, {2, 2}, {4, 3}, {1, 4}}) : gens::weighted_values<long>({{8, 0}, {2, 1}, {1, 2}, {2, 3}, {2, 4}, {1, 8}, {1, 16}, {1, 12}, {1, 5}}); break;
         case P::O_UNSUB: ga = gens::range<long>(0, 15); break;
@@ -228,6 +229,26 @@ static rc::Gen<std::vector<Op>> gen_phrase(const Weights &w, int nmods, const st
         v.push_back(mkop(P::O_TELL, f, s)); v.push_back(mkop(P::O_DISPATCH, 0, 0, 2));
         v.push_back(mkop(P::O_SET_TB, s, 0, 0, 1)); v.push_back(mkop(P::O_UNBECOME, s)); v.push_back(mkop(P::O_TELL, f, s)); v.push_back(mkop(P::O_DISPATCH, 0, 0, 2)); v.push_back(mkop(P::O_UNBECOME, s));
         return v; });
+    // the last module of a looping context goes away through direct calls: the context lives until the loop call returns, then is released
+    auto deregall = gen::map(gen::tuple(gens::range<long>(0, 3), gens::range<long>(0, 8)), [nmods](std::tuple<long, long> t) {
+        std::vector<Op> v;
+        for (int x = 0; x < nmods; x++) v.push_back(mkop(P::O_DEREG, x));
+        if (std::get<0>(t) == 1) v.push_back(mkop(P::O_CTX_PROBE));
+        v.push_back(mkop(P::O_DISPATCH, 0, 0, 1)); v.push_back(mkop(P::O_CTX_PROBE));
+        v.push_back(mkop(P::O_CTX_REG, 0, 0, std::get<1>(t))); v.push_back(mkop(P::O_REG, 0, 0, 0, 0)); v.push_back(mkop(P::O_DISPATCH, 0, 0, 1));
+        return v; });
+    // teardown of a context holding every module slot (in generated registration order and states)
+    auto teardownfull = gen::map(gen::tuple(gens::vec<long>(4, 4, gens::range<long>(0, 4)), gens::range<long>(0, 3)), [nmods](std::tuple<std::vector<long>, long> t) {
+        std::vector<Op> v;
+        for (int k = 0; k < nmods; k++) { int x = (int)((std::get<0>(t)[0] + k) % nmods); v.push_back(mkop(P::O_REG, x, 0, 0, 0)); if (std::get<0>(t)[k % 4] >= 2) v.push_back(mkop(P::O_START, x)); }
+        v.push_back(mkop(P::O_QUIT, 0, 0, 0)); v.push_back(mkop(P::O_DISPATCH, 0, 0, 1));
+        v.push_back(mkop(P::O_CTX_DEREG)); v.push_back(mkop(P::O_CTX_PROBE));
+        if (std::get<1>(t)) { v.push_back(mkop(P::O_CTX_REG, 0, 0, std::get<1>(t))); v.push_back(mkop(P::O_REG, 0, 0, 0, 0)); v.push_back(mkop(P::O_DISPATCH, 0, 0, 1)); }
+        return v; });
+    if (prop == "C07") {
+        auto rest = gens::weighted<std::vector<Op>>({{80, single}, {5, deliver}, {4, pubdeliver}, {1, burst}, {8, loopcycle}, {1, become_cycle}, {1, fdcycle}});
+        return gens::weighted<std::vector<Op>>({{90, rest}, {5, deregall}, {5, teardownfull}});
+    }
     if (prop == "C17") {
         auto rest = gens::weighted<std::vector<Op>>({{35, single}, {10, deliver}, {4, pubdeliver}, {2, burst}, {4, loopcycle}, {40, become_cycle}, {4, stash_cycle}, {1, batch}, {1, fdcycle}});
         return gens::weighted<std::vector<Op>>({{95, rest}, {5, tbbecome}});
@@ -332,7 +353,8 @@ static rc::Gen<Prog> gen_prog(const rt::Args &args) {
                 for (int k = 0; k < P::CB_NKINDS; k++) p.mods[i].scripts[k] = std::get<0>(t)[i][k];
             }
             const long loopmode = std::get<0>(std::get<2>(t)) / 16;
-            { long h = 0; for (int i = 0; i < nmods; i++) h = h * 7 + std::get<1>(t)[i] + std::get<1>(std::get<2>(t))[i]; p.cyc = (h % 3) == 0; } // a third of the programs repeat their callback scripts cyclically
+            { long h = 0; for (int i = 0; i < nmods; i++) h = h * 7 + std::get<1>(t)[i] + std::get<1>(std::get<2>(t))[i]; p.cyc = (h % 3) == 0; // a third of the programs repeat their callback scripts cyclically
+              p.names = ((h / 3) % 4) == 0; } // a quarter use module names that collide in the context's module map
             Op c; c.code = P::O_CTX_REG; c.a = std::get<0>(std::get<2>(t)) % 16; p.ops.push_back(c);
             auto &pre = std::get<1>(std::get<2>(t));
             for (int i = 0; i < nmods; i++) {
